@@ -31,6 +31,25 @@ variable, the load token, the counter, a helper function, a module-level class) 
 is then run by the caller itself, by a task the caller creates, or by an ``@event_trigger`` function the caller
 defines around it (fired by the driver once the runs are over), and reports what its names resolved to (``clor``).
 
+Call made from inside a comprehension (``comp`` of a plan step): the caller hands the call to ``via_comp()``, a frame of
+its own file WITHOUT inner defs, that calls the next hop from inside a list / set / dict comprehension whose loop
+variable is named like its own local (``for d in [d + 100]``) and then marks its local ``d`` again (``cback``).
+
+Trigger functions with expression strings (``spec.trigs``): files that are loaded at start-up define, after their
+``loaded_end`` marker, trigger functions whose ``@event_trigger(type, expr)`` / ``@state_trigger(expr)`` /
+``@state_active(expr)`` expression text names globals of the file it is written in (``limit`` - every file has one, each
+a different value -, ``tag``, ``only_<file>``).  Most of them are also decorated with a user decorator that ANOTHER file
+defines and that was obtained through an import edge (``@ma.twrap`` / ``@ma_twrap`` / ``@twrap_ma``): ``twrap`` returns
+a new wrapper, ``tsame`` the function itself, ``texist`` an existing top-level function of the decorator's file.  ``fire``
+ops (event / state change with a value n out of 5..75, racing the chains) make them trigger.
+
+Imported names bound again (``spec.rebinds``): every file has four globals with its own name in them (``rbv_<f>`` a
+value, ``rbf_<f>`` a function, ``Rbc_<f>`` a class, ``rbo_<f>`` an instance) and ``rb_view()``, its OWN reading of them.  An
+importer binds the name under which it got one of them (the from-import alias, the star-imported name, a name assigned
+from ``m.<name>``; at top level, or a local name inside a function that imports there) again in its own namespace:
+assignment, augmented assignment, del, def, class, for target, except-as, walrus.  Afterwards (marker ``rebind``) and at
+the final probe the exporting file's ``rb_view()`` is recorded.
+
 Oracle (by construction): per file *instance* (identified by the token it drew at load time) the counter seen by
 every mark must follow that instance's own bump history in recorded order; every mark must show the file's own
 tag/token/context name and exactly the foreign names it star-imported; the per-run sequence of marks must be the
@@ -42,7 +61,13 @@ still read its own locals (or, without shadowing, f's globals) afterwards; witho
 handed out reports exactly once.  Reloads by module name and the quiescent re-import add no rule of their own: the
 re-imported instance is one more view in the final 'one live instance per module name' check.  A frame whose mark
 carries the hop index of a frame it had called (its local ``d`` resolved in the callee's locals after the callee came
-back or raised) is reported as C11.caller_context_not_restored / what=locals.
+back or raised) is reported as C11.caller_context_not_restored / what=locals; so is a ``via_comp`` frame that reads the
+comprehension's loop variable (d + 100) as its own ``d`` after the call (sig call_in_comprehension).  A trigger function
+must run for a fire exactly if its expression is true with the globals of the file the expression is written in
+(C11.foreign_globals / at=trigger_expression: fired_although_false always, not_fired_although_true when no reload was
+issued); what the trigger function, the foreign wrapper and the foreign existing function read is judged like every
+other mark.  The exporting file's own view of its four globals never changes, whatever importers do to THEIR names,
+and the function its decorator handed out stays callable (C11.global_modified_by_other_file).
 """
 
 from __future__ import annotations
@@ -69,14 +94,34 @@ RULE = (
     "optional pyscript.reload (all / touched module / one named context: an entry file or a module, package or "
     "file inside a package that other files import) racing the runs, a reload that named a module optionally "
     "followed by a reload of one importing entry file after the runs; p=0.6 a function-body re-import of every "
-    "imported module at the final quiescent point; executor "
+    "imported module at the final quiescent point; per hop p=0.15 the call is made from inside a list / set / dict "
+    "comprehension whose loop variable is named like a local of the calling frame; p=0.35 1-3 top-level trigger "
+    "functions (event / state / event+state_active) whose expression strings name globals of their file, 75% of "
+    "them decorated by another file's decorator (new wrapper 60% / same function 20% / an existing function of "
+    "that file 20%), with 2-5 fire ops racing the runs; p=0.25 1-3 statements that bind a name obtained from "
+    "another file (value / function / class / instance through from-import, star import, module attribute) again in "
+    "the importer's namespace (assign / aug / del / def / class / for / except-as / walrus; top level or local); executor "
     "latency, cost, lateness from gen_cfg); distinct = scenario digest; non-trivial = at least two runs overlapped "
     "in time and at least one call crossed a file boundary"
 )
 ASSUMPTIONS = [
     "NOT decided here: equivalence of each import statement form with CPython's import semantics (which names an "
-    "import binds, dotted 'import a.b', rebinding of a from-imported name) - a pure function of the program; "
-    "only the interleaving-dependent clauses are judged",
+    "import binds, dotted 'import a.b', what the importer's own name reads after it was bound again) - a pure "
+    "function of the program; judged IS (property: globals of one file are unmodifiable by every other one except "
+    "through explicit import of a MODULE, i.e. assignment to an attribute of the module object) that binding an "
+    "imported NAME again in the importer never changes what the exporting file's own code reads",
+    "trigger decorator expression strings are text of the file they are written in: names in them resolve like names "
+    "at the start of the trigger function (docs on @state_active: 'roughly equivalent to starting the trigger "
+    "function with an if statement with the str_expr'), whoever defined the wrapper function that a user decorator "
+    "put around the trigger function; a fire whose expression is true must run the function only if no "
+    "pyscript.reload was issued in the scenario (a reload may take the trigger away for a while), duplicates are "
+    "not judged (two racing loads of one module - C11-K1 - leave two live trigger functions)",
+    "a decorator may return any function, also an existing top-level function of its own file (Python: the decorated "
+    "name is then bound to that same function); the exporting file's own calls of that function must keep working. "
+    "At most one trigger function per exporting file uses such a decorator, and only across files",
+    "a comprehension is part of the frame that contains it: the call chain is routed through a frame without inner "
+    "defs (via_comp) so that only 'the loop variable is still there after the callee came back / raised' is judged, "
+    "not pyscript's handling of comprehension variables in closure-capable frames (single-file scoping)",
     "pyscript.set_global_ctx() is not generated (the docs discourage it in scripts and do not say what it means "
     "inside a function); Jupyter sessions are not generated here",
     "pyscript.get_global_ctx() inside a function is required to name the context of the file that defines the "
@@ -123,8 +168,15 @@ REACH_PROBES = [
     "reload_names_module", "reload_names_loaded_module", "reload_names_module_with_importers",
     "importer_reloaded_with_named_module", "one_file_reloaded_after_named_module_reload",
     "reimport_at_quiescent_point", "callee_raised_in_class_body", "callee_raised_in_class_body_same_file",
+    "call_in_comprehension", "callee_raised_in_comprehension",
+    "trigger_fired_by_driver", "trigger_expression_names_file_globals", "trigger_function_decorated_by_other_file",
+    "trigger_function_decorated_by_other_file_wrapper", "trigger_function_decorated_by_other_file_same",
+    "trigger_function_decorated_by_other_file_existing",
+    "imported_name_bound_again", "imported_name_bound_again_top", "imported_name_bound_again_local",
+    "imported_class_bound_again",
 ]
-SHRINK_LISTS = [["ops"], ["spec", "runs"], ["spec", "runs", "*", "plan"], ["spec", "edges"]]
+SHRINK_LISTS = [["ops"], ["spec", "runs"], ["spec", "runs", "*", "plan"], ["spec", "edges"], ["spec", "trigs"],
+                ["spec", "rebinds"]]
 
 ENTRY_POOL = ["sa", "sb", "xa"]
 MOD_ORDER = ["pk", "ps", "ma", "mb"]
@@ -139,11 +191,26 @@ ABS_FORMS = ["attr", "from", "star", "lazy", "lazyfrom"]
 REL_FORMS = ["rel", "relfrom", "relstar", "lazyrel"]
 LAZY_FORMS = {"lazy", "lazyfrom", "lazyrel"}
 STAR_FORMS = {"star", "relstar"}
-SEQ_KINDS = {"start", "imp", "see", "spawned", "enter", "bumped", "back", "after", "badback", "clo"}
-OWN_KINDS = {"start", "spawned", "enter", "bumped", "back", "after", "loaded_end", "badback", "clo"}
+SEQ_KINDS = {"start", "imp", "see", "spawned", "enter", "bumped", "back", "after", "badback", "clo", "cback"}
+OWN_KINDS = {"start", "spawned", "enter", "bumped", "back", "after", "loaded_end", "badback", "clo", "cback",
+             "trg", "twr", "tex"}
 CLO_KINDS = ["closure", "cls", "deco"]
 CLO_BY = ["direct", "task", "trigger"]
 CLO_SHADOW = ["all", "none"]
+# trigger functions whose decorator expression strings name globals of their own file ("limit", "tag", "only_<file>")
+# (not monotone in ORDER: an importer's limit is above the limit of some of its modules and below that of others)
+LIMIT = dict(zip(ORDER, [40, 20, 60, 10, 70, 30, 50]))
+N_VALUES = [5, 15, 25, 35, 45, 55, 65, 75]
+TRIG_KINDS = ["event", "state", "active"]
+TRIG_DECOS = ["wrapper", "same", "existing"]
+TRIG_DECO_FN = {"wrapper": "twrap", "same": "tsame", "existing": "texist"}
+TRIG_EXPRS = ["limit", "tag", "only"]
+# names a file obtained from another file and then binds again in its own namespace
+RB_OBJS = ["val", "fn", "cls", "obj"]
+RB_NAME = {"val": "rbv", "fn": "rbf", "cls": "Rbc", "obj": "rbo"}
+RB_HOWS = ["assign", "aug", "del", "def", "class", "for", "exc", "walrus"]
+RB_WHERE = ["top", "local"]
+COMP_KINDS = ["list", "set", "dict"]
 
 
 # ------------------------------------------------------------------ generation
@@ -261,11 +328,59 @@ def _gen_plan(rng: random.Random, files: list, edges: list, entry: str, max_hops
             # class / decorator wrapper) while the caller's own frame holds locals named like the callee's globals;
             # the inner function is then run by the caller, by a created task or by a trigger (cross-file only)
             "clo": _gen_clo(rng) if dst != cur and rng.random() < 0.3 else None,
+            # the call is made from inside a comprehension (of a frame without inner defs) whose loop variable has
+            # the name of a local of that frame
+            "comp": rng.choice(COMP_KINDS) if rng.random() < 0.15 else None,
         })
         cur = dst
         if cur not in upstream:
             upstream.append(cur)
     return plan
+
+
+def _gen_trigs(rng: random.Random, files: list, edges: list, ops: list):
+    """Top-level trigger functions whose decorator expression strings name globals of the file they are written in,
+    most of them wrapped by a decorator that ANOTHER file defines; plus the 'fire' ops that make them trigger."""
+    tbase = rng.choice(N_VALUES)
+    if rng.random() >= 0.35:
+        return [], tbase
+    loaded = _startup_loaded(files, edges)
+    cands = [f for f in files if f in loaded]
+    trigs = []
+    rich = [f for f in cands if any(e["src"] == f and any(fm not in LAZY_FORMS for fm in e["forms"]) for e in edges)]
+    for k in range(1, rng.choice([1, 2, 2, 3]) + 1):
+        fid = rng.choice(rich) if rich and rng.random() < 0.7 else rng.choice(cands)
+        cross = [f"{e['dst']}.{form}" for e in edges if e["src"] == fid for form in e["forms"] if form not in LAZY_FORMS]
+        via = rng.choice(cross) if cross and rng.random() < 0.75 else rng.choice([None, "self"])
+        deco = rng.choices(TRIG_DECOS, [6, 2, 2])[0] if via else None
+        trigs.append({"id": k, "f": fid, "via": via, "deco": deco, "kind": rng.choice(TRIG_KINDS),
+                      "expr": rng.choice(TRIG_EXPRS)})
+    for q in range(1, rng.randint(2, 5) + 1):
+        op = gen_delay(rng, burst_p=0.4, grid=0.25, max_steps=2)
+        op.update({"kind": "fire", "k": rng.choice(trigs)["id"], "n": rng.choice(N_VALUES), "q": q})
+        ops.insert(rng.randint(0, len(ops)), op)
+    return trigs, tbase
+
+
+def _gen_rebinds(rng: random.Random, files: list, edges: list, ops: list) -> list:
+    """A file binds a name it obtained from another file (from-import, star import, attribute of the imported module)
+    again in its own namespace: assignment, del, def, class, for target, except-as, walrus."""
+    if not edges or rng.random() >= 0.25:
+        return []
+    rebinds = []
+    for k in range(1, rng.choice([1, 1, 2, 3]) + 1):
+        edge = rng.choice(edges)
+        form = rng.choice(edge["forms"])
+        obj = rng.choice(["val", "fn", "cls", "cls", "cls", "obj"])
+        how = rng.choice(RB_HOWS)
+        where = "local" if form in LAZY_FORMS else rng.choice(RB_WHERE)
+        rebinds.append({"id": k, "f": edge["src"], "g": edge["dst"], "form": form, "obj": obj, "how": how,
+                        "where": where})
+        if where == "local" and edge["src"] in ENTRY_POOL:
+            op = gen_delay(rng, burst_p=0.4, grid=0.25, max_steps=2)
+            op.update({"kind": "rebind", "k": k})
+            ops.insert(rng.randint(0, len(ops)), op)
+    return rebinds
 
 
 def gen(rng: random.Random, tier: str) -> dict:
@@ -321,8 +436,10 @@ def gen(rng: random.Random, tier: str) -> dict:
     # at the final quiescent point every file imports each of its modules once more inside a function body and
     # reports which instance that import statement handed out
     reimport = rng.random() < 0.6
+    trigs, tbase = _gen_trigs(rng, files, edges, ops)
+    rebinds = _gen_rebinds(rng, files, edges, ops)
     scn = {"cfg": cfg, "spec": {"files": files, "edges": edges, "slow": slow, "runs": runs, "mode": mode,
-                                "reimport": reimport}, "ops": ops}
+                                "reimport": reimport, "trigs": trigs, "tbase": tbase, "rebinds": rebinds}, "ops": ops}
     out = normalize(scn)
     if out is None:
         raise HarnessError("C11.gen produced an invalid scenario")
@@ -379,6 +496,8 @@ def normalize(scn: dict) -> dict | None:
             step["rcls"] = bool(step.get("rcls", False)) and bool(step["raise"])
             if d == 0:
                 step["spawn"] = run["how"] == "create"
+            # (a call handed to task.create is not made by the frame: no comprehension around it)
+            step["comp"] = step.get("comp") if step.get("comp") in COMP_KINDS and not step["spawn"] else None
             if step["spawn"]:
                 rid = rid * 10 + d
                 step["run"] = rid
@@ -391,8 +510,52 @@ def normalize(scn: dict) -> dict | None:
     if not runs:
         return None
     spec["runs"] = runs
+    # ---- trigger functions with expression strings (absent in old scenarios)
+    loaded = _startup_loaded(files, edges)
+    edge_forms = {(e["src"], e["dst"]): e["forms"] for e in edges}
+    trigs = []
+    exist_from = set()
+    for trig in spec.get("trigs") or []:
+        trig = dict(trig)
+        if trig.get("f") not in loaded or not isinstance(trig.get("id"), int) or \
+                any(t["id"] == trig["id"] for t in trigs) or trig.get("kind") not in TRIG_KINDS:
+            continue
+        via = trig.get("via")
+        if via not in (None, "self"):
+            dst, _, form = str(via).partition(".")
+            if form in LAZY_FORMS or form not in edge_forms.get((trig["f"], dst), []):
+                via = None
+        deco = None if via is None else trig.get("deco") if trig.get("deco") in TRIG_DECOS else "wrapper"
+        if deco == "existing":
+            # the decorator hands out ONE existing function of its file: at most one user per exporting file, and
+            # only across files
+            if via == "self" or via.partition(".")[0] in exist_from:
+                deco = "wrapper"
+            else:
+                exist_from.add(via.partition(".")[0])
+        trig.update({"via": via, "deco": deco, "expr": trig.get("expr") if trig.get("expr") in TRIG_EXPRS else "limit"})
+        trigs.append(trig)
+    spec["trigs"] = trigs
+    spec["tbase"] = spec.get("tbase") if isinstance(spec.get("tbase"), int) else N_VALUES[0]
+    # ---- names obtained from another file that are bound again (absent in old scenarios)
+    rebinds = []
+    for rb in spec.get("rebinds") or []:
+        rb = dict(rb)
+        forms = edge_forms.get((rb.get("f"), rb.get("g")), [])
+        if rb.get("form") not in forms or rb.get("obj") not in RB_OBJS or rb.get("how") not in RB_HOWS or \
+                rb.get("where") not in RB_WHERE or not isinstance(rb.get("id"), int) or \
+                any(r["id"] == rb["id"] or (r["f"], r["g"], r["obj"]) == (rb["f"], rb["g"], rb["obj"]) for r in rebinds):
+            continue
+        if rb["form"] in LAZY_FORMS:
+            rb["where"] = "local"
+        if rb["how"] == "aug" and rb["obj"] != "val":
+            rb["how"] = "assign"
+        rebinds.append(rb)
+    spec["rebinds"] = rebinds
     ops = []
     started = set()
+    fired = set()
+    rebound = set()
     for op in scn["ops"]:
         if op["kind"] == "start":
             if op["run"] not in ids or op["run"] in started or not any(r["id"] == op["run"] for r in runs):
@@ -401,6 +564,16 @@ def normalize(scn: dict) -> dict | None:
         elif op["kind"] == "reload":
             if op["target"] not in files or (op["mode"] == "touch" and op["target"] not in MOD_ORDER):
                 continue
+        elif op["kind"] == "fire":
+            if not any(t["id"] == op.get("k") for t in trigs) or op.get("n") not in N_VALUES or \
+                    not isinstance(op.get("q"), int) or not 0 < op["q"] < 100 or op["q"] in fired:
+                continue
+            fired.add(op["q"])
+        elif op["kind"] == "rebind":
+            if op.get("k") in rebound or not any(r["id"] == op.get("k") and r["where"] == "local"
+                                                  and r["f"] in ENTRY_POOL for r in rebinds):
+                continue
+            rebound.add(op["k"])
         ops.append(op)
     if not started:
         return None
@@ -421,7 +594,7 @@ def simplify(scn: dict):
             yield normalize(cand)
         for si, step in enumerate(run["plan"]):
             for key, val in (("sleep", 0), ("sleep2", 0), ("raise", False), ("meth", False), ("spawn", False),
-                             ("catch", "catch"), ("badfirst", False), ("rcls", False)):
+                             ("catch", "catch"), ("badfirst", False), ("rcls", False), ("comp", None)):
                 if step.get(key, val) != val and not (key == "spawn" and si == 0):
                     cand = copy.deepcopy(scn)
                     cand["spec"]["runs"][ri]["plan"][si][key] = val
@@ -454,6 +627,18 @@ def simplify(scn: dict):
         cand = copy.deepcopy(scn)
         cand["spec"]["reimport"] = False
         yield normalize(cand)
+    for ti, trig in enumerate(spec.get("trigs") or []):
+        for key, val in (("kind", "event"), ("expr", "limit"), ("deco", "wrapper")):
+            if trig.get(key) != val and not (key == "deco" and trig.get("deco") is None):
+                cand = copy.deepcopy(scn)
+                cand["spec"]["trigs"][ti][key] = val
+                yield normalize(cand)
+    for ri, rb in enumerate(spec.get("rebinds") or []):
+        for key, val in (("how", "assign"), ("where", "top")):
+            if rb.get(key) != val:
+                cand = copy.deepcopy(scn)
+                cand["spec"]["rebinds"][ri][key] = val
+                yield normalize(cand)
     ents = [f for f in spec["files"] if f in ENTRY_POOL]
     for i, op in enumerate(scn["ops"]):
         if op["kind"] == "reload" and op["mode"] == "ctx" and op["target"] in MOD_ORDER:
@@ -486,9 +671,13 @@ def simplify(scn: dict):
 
 
 # ------------------------------------------------------------------ rendering
-def _from_list(prefix: str) -> str:
+def _from_list(prefix: str, dst: str | None = None) -> str:
+    dst = dst or prefix
     return (f"hop as {prefix}_hop, box as {prefix}_box, import_token as {prefix}_tok, "
-            f"shared as {prefix}_shared, peek as {prefix}_peek, make as {prefix}_make, wrap as {prefix}_wrap")
+            f"shared as {prefix}_shared, peek as {prefix}_peek, make as {prefix}_make, wrap as {prefix}_wrap, "
+            f"twrap as {prefix}_twrap, tsame as {prefix}_tsame, texist as {prefix}_texist, "
+            f"rb_view as {prefix}_rb_view, "
+            + ", ".join(f"{RB_NAME[o]}_{dst} as {prefix}_{RB_NAME[o]}" for o in RB_OBJS))
 
 
 def _top_import(dst: str, form: str) -> str | None:
@@ -511,7 +700,7 @@ def _lazy_import(dst: str, form: str) -> str | None:
     if form == "lazy":
         return f"import {dst} as lz"
     if form == "lazyfrom":
-        return f"from {dst} import {_from_list('lz')}"
+        return f"from {dst} import {_from_list('lz', dst)}"
     if form == "lazyrel":
         return "from . import sub as lz"
     return None
@@ -519,17 +708,18 @@ def _lazy_import(dst: str, form: str) -> str | None:
 
 def _exprs(dst: str, form: str) -> dict:
     """How the importer spells the callee's objects for one edge form."""
-    names = ("hop", "box", "import_token", "shared", "peek", "make", "wrap")
+    names = ("hop", "box", "import_token", "shared", "peek", "make", "wrap", "twrap", "tsame", "texist", "rb_view")
     short = {"import_token": "tok"}
+    rbs = [RB_NAME[o] for o in RB_OBJS]   # these globals carry the file's name: <rbv|rbf|Rbc|rbo>_<file>
     if form in ("attr", "rel"):
-        return {n: f"{dst}.{n}" for n in names}
+        return {**{n: f"{dst}.{n}" for n in names}, **{r: f"{dst}.{r}_{dst}" for r in rbs}}
     if form in ("lazy", "lazyrel"):
-        return {n: f"lz.{n}" for n in names}
+        return {**{n: f"lz.{n}" for n in names}, **{r: f"lz.{r}_{dst}" for r in rbs}}
     if form in ("from", "relfrom"):
-        return {n: f"{dst}_{short.get(n, n)}" for n in names}
+        return {**{n: f"{dst}_{short.get(n, n)}" for n in names}, **{r: f"{dst}_{r}" for r in rbs}}
     if form == "lazyfrom":
-        return {n: f"lz_{short.get(n, n)}" for n in names}
-    return {n: f"{short.get(n, n)}_{dst}" for n in names}  # star forms
+        return {**{n: f"lz_{short.get(n, n)}" for n in names}, **{r: f"lz_{r}" for r in rbs}}
+    return {**{n: f"{short.get(n, n)}_{dst}" for n in names}, **{r: f"{r}_{dst}" for r in rbs}}  # star forms
 
 
 def _vis_block(fid: str, files: list, ind: str) -> list[str]:
@@ -581,6 +771,12 @@ def _dispatch(fid: str, my_edges: list, ind: str, files: list) -> list[str]:
     return lines
 
 
+def _call_lines(ind: str, args: str) -> list[str]:
+    """The call of the next hop: plain, or (plan step 'comp') made by via_comp() from inside a comprehension."""
+    return [f"{ind}if nx.get('comp'):", f"{ind}    via_comp(nx['comp'], fn, {args}, d)",
+            f"{ind}else:", f"{ind}    fn({args})"]
+
+
 def _hop_body(fid: str, files: list, my_edges: list, ind: str, meth: bool) -> list[str]:
     own = _own(fid)
     k = "m" if meth else "f"
@@ -599,11 +795,11 @@ def _hop_body(fid: str, files: list, my_edges: list, ind: str, meth: bool) -> li
     lines += _dispatch(fid, my_edges, i2, files)
     lines += [f"{i2}if nx['spawn']:", f"{i3}task.create(fn, nx['run'], rest, cbs2)",
               f"{i3}sim.mark('spawned', {fid!r}, run=run, d=d, {own})",
-              f"{i2}elif me['catch'] == 'none':", f"{i3}fn(run, rest, cbs2)"]
+              f"{i2}elif me['catch'] == 'none':"] + _call_lines(i3, "run, rest, cbs2")
     lines += _vis_block(fid, files, i3)
     lines.append(f"{i3}sim.mark('back', {fid!r}, run=run, d=d, how='ret', {own}, vis=vis)")
-    lines += [f"{i2}else:", f"{i3}how = 'ret'", f"{i3}try:", f"{i4}fn(run, rest, cbs2)",
-              f"{i3}except ValueError:", f"{i4}how = 'exc'"]
+    lines += [f"{i2}else:", f"{i3}how = 'ret'", f"{i3}try:"] + _call_lines(i4, "run, rest, cbs2") + \
+        [f"{i3}except ValueError:", f"{i4}how = 'exc'"]
     lines += _vis_block(fid, files, i3)
     lines.append(f"{i3}sim.mark('back', {fid!r}, run=run, d=d, how=how, {own}, vis=vis)")
     lines += [f"{i3}if how == 'exc' and me['catch'] != 'catch':", f"{i4}raise ValueError('boom again')"]
@@ -671,6 +867,153 @@ def _render_closures(fid: str) -> list[str]:
     return lines
 
 
+def _render_extras(fid: str) -> list[str]:
+    """via_comp (a call made from inside a comprehension), the trigger-function decorators this file offers to other
+    files (twrap: new wrapper, tsame: the function itself, texist: an existing function of this file) and the four
+    globals other files import and then bind again in THEIR namespace, with rb_view(): this file's own view of them."""
+    own = _own(fid)
+    tkw = "k=kw.get('k'), q=kw.get('q'), n=kw.get('n'), value=kw.get('value'), var=kw.get('var_name')"
+    lines = ["def via_comp(kind, fn, a0, a1, a2, d):",
+             "    how = 'ret'",
+             "    try:",
+             "        if kind == 'list':",
+             "            [fn(a0, a1, a2) for d in [d + 100]]",
+             "        elif kind == 'set':",
+             "            {fn(a0, a1, a2) for d in [d + 100]}",
+             "        else:",
+             "            {d: fn(a0, a1, a2) for d in [d + 100]}",
+             "    except ValueError:",
+             "        how = 'exc'",
+             f"    sim.mark('cback', {fid!r}, run=a0, d=d, how=how, {own})",
+             "    if how == 'exc':",
+             "        raise ValueError('boom again')", "",
+             f"limit = {LIMIT[fid]}", "t_seen = []", "",
+             "def twrap(func):",
+             "    def twrapper(**kw):",
+             f"        sim.mark('twr', {fid!r}, {tkw}, {own})",
+             "        return func(**kw)",
+             "    return twrapper", "",
+             "def tsame(func):",
+             "    t_seen.append(1)",
+             "    return func", "",
+             "def t_existing(**kw):",
+             "    if kw.get('probe'):",
+             "        return 'ok'",
+             f"    sim.mark('tex', {fid!r}, {tkw}, {own})", "",
+             "def texist(func):",
+             "    t_seen.append(1)",
+             "    return t_existing", "",
+             f"rbv_{fid} = {fid + ':val'!r}", "",
+             f"def rbf_{fid}():", f"    return {fid + ':fn'!r}", "",
+             f"class Rbc_{fid}:", f"    who = {fid + ':cls'!r}", "",
+             f"rbo_{fid} = Rbc_{fid}()", "",
+             "def rb_view():", "    out = {}"]
+    for key, expr in (("val", f"rbv_{fid}"), ("fn", f"rbf_{fid}()"), ("cls", f"Rbc_{fid}.who"), ("obj", f"rbo_{fid}.who")):
+        lines += ["    try:", f"        out[{key!r}] = {expr}", "    except Exception as exc:",
+                  f"        out[{key!r}] = 'ERR ' + type(exc).__name__"]
+    lines += ["    return out", ""]
+    return lines
+
+
+def _rebind_stmts(name: str, how: str, mine: str, ind: str) -> list[str]:
+    if how == "assign":
+        return [f"{ind}{name} = {mine!r}"]
+    if how == "aug":
+        return [f"{ind}{name} += ':x'"]
+    if how == "del":
+        return [f"{ind}del {name}"]
+    if how == "def":
+        return [f"{ind}def {name}():", f"{ind}    return {mine!r}"]
+    if how == "class":
+        return [f"{ind}class {name}:", f"{ind}    who = {mine!r}"]
+    if how == "for":
+        return [f"{ind}for {name} in [{mine!r}]:", f"{ind}    pass"]
+    if how == "exc":
+        return [f"{ind}try:", f"{ind}    raise KeyError({mine!r})", f"{ind}except KeyError as {name}:", f"{ind}    pass"]
+    return [f"{ind}({name} := {mine!r})"]
+
+
+def _render_tail(fid: str, spec: dict) -> list[str]:
+    """What follows the file's 'loaded_end' marker: the statements that bind imported names again and the trigger
+    functions with expression strings (a failure here costs the rest of the tail, never the file's entry points)."""
+    lines = []
+    own = _own(fid)
+    local_ids = []
+    for rb in spec.get("rebinds") or []:
+        if rb["f"] != fid:
+            continue
+        g, form, k = rb["g"], rb["form"], rb["id"]
+        ex = _exprs(g, form)
+        mine = f"{fid}:mine"
+        src = ex[RB_NAME[rb["obj"]]]
+        lines.append(f"# rebind {k}: {rb['obj']} of {g} obtained through {form}, bound again by {rb['how']} ({rb['where']})")
+        if rb["where"] == "top":
+            lines.append("try:")
+            if form in ("attr", "rel"):
+                name = f"rb_{k}"
+                lines.append(f"    {name} = {src}")
+            else:
+                name = src   # the from-imported alias / the star-imported name itself
+            lines += _rebind_stmts(name, rb["how"], mine, "    ")
+            lines.append(f"    sim.mark('rebind', {fid!r}, k={k}, g={g!r}, after={ex['rb_view']}())")
+            lines += _tail_except(fid, "rebind", k)
+            continue
+        # inside a function: import there, bind the local name again
+        lines.append(f"def rb_do_{k}():")
+        lines.append(f"    sim.mark('imp', {fid!r}, g={g!r}, top=True, rb={k})")
+        if form in ("attr", "lazy"):
+            lines += [f"    import {g} as hm", f"    z = hm.{RB_NAME[rb['obj']]}_{g}", "    view = hm.rb_view"]
+        elif form in ("rel", "lazyrel"):
+            lines += ["    from . import sub as hm", f"    z = hm.{RB_NAME[rb['obj']]}_{g}", "    view = hm.rb_view"]
+        elif form in ("relfrom", "relstar"):
+            lines += [f"    from .sub import {RB_NAME[rb['obj']]}_{g} as z, rb_view as view"]
+        else:
+            lines += [f"    from {g} import {RB_NAME[rb['obj']]}_{g} as z, rb_view as view"]
+        lines += _rebind_stmts("z", rb["how"], mine, "    ")
+        lines.append(f"    sim.mark('rebind', {fid!r}, k={k}, g={g!r}, after=view())")
+        lines.append("")
+        if fid in ENTRY_POOL:
+            local_ids.append(k)
+        else:
+            lines += ["try:", f"    rb_do_{k}()"] + _tail_except(fid, "rebind", k)
+    if local_ids:
+        lines += ["@service", f"def rebind_{fid}(k=None, **kw):"]
+        for k in local_ids:
+            lines += [f"    if k == {k}:", "        try:", f"            rb_do_{k}()"] + \
+                _tail_except(fid, "rebind", k, "        ")
+        lines.append("")
+    for trig in spec.get("trigs") or []:
+        if trig["f"] != fid:
+            continue
+        k = trig["id"]
+        val = {"event": "n", "state": f"int(pyscript.c11v_{k}) // 100", "active": "int(pyscript.c11base)"}[trig["kind"]]
+        cond = {"limit": f"{val} > limit", "tag": f"tag == {fid!r} and {val} > limit",
+                "only": f"only_{fid} == {fid!r} and {val} > limit"}[trig["expr"]]
+        lines.append("try:")
+        if trig["kind"] == "event":
+            lines.append(f"    @event_trigger('c11t', {f'k == {k} and ' + cond!r})")
+        elif trig["kind"] == "state":
+            lines.append(f"    @state_trigger({cond!r})")
+        else:
+            lines += [f"    @event_trigger('c11t', 'k == {k}')", f"    @state_active({cond!r})"]
+        if trig["via"] == "self":
+            lines.append(f"    @{TRIG_DECO_FN[trig['deco']]}")
+        elif trig["via"]:
+            dst, _, form = trig["via"].partition(".")
+            lines.append(f"    @{_exprs(dst, form)[TRIG_DECO_FN[trig['deco']]]}")
+        lines += [f"    def trg_{k}(**kw):",
+                  f"        sim.mark('trg', {fid!r}, trg={k}, k=kw.get('k'), q=kw.get('q'), n=kw.get('n'), "
+                  f"value=kw.get('value'), var=kw.get('var_name'), {own})"]
+        lines += _tail_except(fid, "trg", k)
+    return lines
+
+
+def _tail_except(fid: str, item: str, k: int, ind: str = "") -> list[str]:
+    """No statement of the tail raises in Python; if one does here, say so (marker) and carry on with the file."""
+    return [f"{ind}except Exception as exc:",
+            f"{ind}    sim.mark('tailerr', {fid!r}, item={item!r}, k={k}, err=type(exc).__name__)", ""]
+
+
 def _render_file(fid: str, spec: dict) -> str:
     files = spec["files"]
     my_edges = [e for e in spec["edges"] if e["src"] == fid]
@@ -699,11 +1042,17 @@ def _render_file(fid: str, spec: dict) -> str:
     lines += _hop_body(fid, files, my_edges, "    ", False)
     lines += ["", f"box = Box({fid!r})", ""]
     lines += _render_closures(fid)
+    lines += _render_extras(fid)
     # ---- quiescent probe
     lines += ["def peek(out):",
               f"    ent = {{'f': {fid!r}, 'tok': import_token, 'tag': tag, 'counter': counter, 'sh': len(shared), "
               f"'ctx': pyscript.get_global_ctx(), 'sees': {{}}}}",
-              "    out.append(ent)", "    sees = ent['sees']"]
+              "    out.append(ent)", "    sees = ent['sees']",
+              # this file's own view of the globals other files imported (and bound again in their namespace), and
+              # of the function its decorator texist() handed out
+              "    ent['rb'] = rb_view()",
+              "    try:", "        ent['tex'] = t_existing(probe=1)",
+              "    except Exception as exc:", "        ent['tex'] = 'ERR ' + type(exc).__name__"]
     for edge in my_edges:
         for form in edge["forms"]:
             ex = _exprs(edge["dst"], form)
@@ -724,8 +1073,8 @@ def _render_file(fid: str, spec: dict) -> str:
         lines += _dispatch(fid, my_edges, "    ", files)
         lines += ["    if nx['spawn']:", "        task.create(fn, nx['run'], plan, cbs)",
                   f"        sim.mark('spawned', {fid!r}, run=run, d=d, {own})",
-                  "    else:", "        res = 'ret'", "        try:", "            fn(run, plan, cbs)",
-                  "        except ValueError:", "            res = 'exc'"]
+                  "    else:", "        res = 'ret'", "        try:"] + _call_lines("            ", "run, plan, cbs") + \
+            ["        except ValueError:", "            res = 'exc'"]
         lines += _vis_block(fid, files, "        ")
         lines += [f"        sim.mark('back', {fid!r}, run=run, d=d, how=res, {own}, vis=vis)",
                   "        if res == 'exc' and not top:", "            raise ValueError('boom at top')", ""]
@@ -739,8 +1088,10 @@ def _render_file(fid: str, spec: dict) -> str:
                   f"    sim.mark('peek', {fid!r}, out=out)", ""]
     else:
         lines += [f"hop_{fid} = hop", f"box_{fid} = box", f"shared_{fid} = shared", f"peek_{fid} = peek",
-                  f"make_{fid} = make", f"wrap_{fid} = wrap", ""]
+                  f"make_{fid} = make", f"wrap_{fid} = wrap", f"twrap_{fid} = twrap", f"tsame_{fid} = tsame",
+                  f"texist_{fid} = texist", f"rb_view_{fid} = rb_view", ""]
     lines.append(f"sim.mark('loaded_end', {fid!r}, {own})")
+    lines += _render_tail(fid, spec)
     return "\n".join(lines) + "\n"
 
 
@@ -785,6 +1136,8 @@ def _exp_hop(out: dict, rid: int, plan: list, i: int) -> str:
             _exp_hop(out, nx["run"], plan, i + 1)
         else:
             res = _exp_hop(out, rid, plan, i + 1)
+            if nx.get("comp"):
+                seq.append(("cback", fid, i, res))
             if me["catch"] == "none":
                 if res == "exc":
                     return "exc"
@@ -810,6 +1163,8 @@ def expected_sequences(run: dict) -> dict:
         _exp_hop(out, nx["run"], plan, 0)
     else:
         res = _exp_hop(out, rid, plan, 0)
+        if nx.get("comp"):
+            seq.append(("cback", entry, -1, res))
         seq.append(("back", entry, -1, res))
     return out
 
@@ -873,12 +1228,17 @@ def run(scn: dict) -> dict:
         cfg["apps"] = {"xa": {"opt": 1}}
     w = C11World(cfg, files)
     runs = {r["id"]: r for r in spec["runs"]}
-    st = {"starts": [], "reloads": [], "peek_from": None}
+    st = {"starts": [], "reloads": [], "peek_from": None, "fires": [], "rebinds": []}
+    trig_by_id = {t["id"]: t for t in spec["trigs"]}
+    rebind_by_id = {r["id"]: r for r in spec["rebinds"]}
 
     async def driver(w: World):
         from homeassistant.exceptions import ServiceNotFound
 
         await w.started()
+        if any(t["kind"] == "active" for t in spec["trigs"]):
+            w.set_state("pyscript.c11base", str(spec["tbase"]))
+            await w.drain()
         st["ops_from"] = len(w.marks)
         burst = 0
         for op in scn["ops"]:
@@ -930,6 +1290,22 @@ def run(scn: dict) -> dict:
             elif kind == "stall":
                 w.loop.stall(op["s"])
                 w.fault("stall")
+            elif kind == "fire":
+                trig = trig_by_id[op["k"]]
+                st["fires"].append({"k": op["k"], "n": op["n"], "q": op["q"], "t": w.vts(), "iter": w.loop.iterations})
+                if trig["kind"] == "state":
+                    w.set_state(f"pyscript.c11v_{op['k']}", str(op["n"] * 100 + op["q"]))
+                else:
+                    w.fire("c11t", {"k": op["k"], "n": op["n"], "q": op["q"]})
+            elif kind == "rebind":
+                rb = rebind_by_id[op["k"]]
+                rec = {"k": op["k"], "t": w.vts(), "ok": True}
+                try:
+                    await w.call_service("pyscript", f"rebind_{rb['f']}", {"k": op["k"]}, blocking=False)
+                except ServiceNotFound:
+                    rec["ok"] = False
+                    w.probe("service_missing_during_reload")
+                st["rebinds"].append(rec)
         await w.settle(8.0)
         for rec in st["reloads"]:
             for _ in range(20):
@@ -1051,6 +1427,66 @@ def judge(w: World, scn: dict, st: dict):
                  {"at": at},
                  f"{where} can read the only_<file> names of {kw['vis']}; by its star imports it should see "
                  f"exactly {exp_vis[fid]}", t)
+
+    # ---- globals of file g that other files imported and bound again in their own namespace
+    rebind_by_id = {r["id"]: r for r in spec["rebinds"]}
+    rebind_marks: dict = {}    # rebind id -> marks
+
+    def check_rb_view(g: str, view, when: str, t: float) -> None:
+        want = {"val": f"{g}:val", "fn": f"{g}:fn", "cls": f"{g}:cls", "obj": f"{g}:cls"}
+        if not isinstance(view, dict) or sorted(view) != sorted(want):
+            raise HarnessError(f"C11: malformed rb_view {view!r}")
+        for key in RB_OBJS:
+            got = view[key]
+            if got == want[key]:
+                continue
+            now = "error" if isinstance(got, str) and got.startswith("ERR ") else \
+                "importer_value" if isinstance(got, str) and got.endswith(":mine") else "other"
+            viol("C11.global_modified_by_other_file", {"what": key, "now": now},
+                 f"{when}: {g}'s OWN code reads its global {RB_NAME[key]}_{g} ({key}) as {got!r} instead of "
+                 f"{want[key]!r} - no file assigned to an attribute of the module, a name that merely was imported "
+                 f"from it was bound again elsewhere", t, once=(g, key))
+
+    # ---- trigger functions with expression strings
+    trig_by_id = {t["id"]: t for t in spec["trigs"]}
+    fire_by_q = {f["q"]: f for f in st.get("fires", [])}
+    trig_reports: dict = {}    # q -> number of times the trigger's final function reported
+
+    def trig_truth(trig: dict, fire: dict, fid: str) -> bool:
+        """Value of the trigger's expression(s) with the names limit / tag / only_<f> read in file ``fid``."""
+        if trig["expr"] != "limit" and fid != trig["f"]:
+            return False
+        return (spec["tbase"] if trig["kind"] == "active" else fire["n"]) > LIMIT[fid]
+
+    def check_trig_mark(m: dict, kind: str, fid: str, kw: dict) -> None:
+        kw = m["raw_kw"]
+        if kw.get("value") is not None:
+            val = int(kw["value"])
+            k, q = int(str(kw.get("var")).rsplit("_", 1)[1]), val % 100
+        else:
+            k, q = kw.get("k"), kw.get("q")
+        trig, fire = trig_by_id.get(k), fire_by_q.get(q)
+        if trig is None or fire is None or fire["k"] != k or (kind == "trg" and kw.get("trg") != k):
+            raise HarnessError(f"C11: {kind} mark that no fire op explains: {kw}")
+        dst = trig["via"].partition(".")[0] if trig["via"] not in (None, "self") else trig["f"]
+        final = "tex" if trig["deco"] == "existing" else "trg"
+        if (kind == "trg" and fid != trig["f"]) or (kind in ("twr", "tex") and fid != dst) or \
+                (kind == "twr" and trig["deco"] != "wrapper") or (kind == "tex" and final != "tex"):
+            raise HarnessError(f"C11: {kind} mark by the wrong function: {kw} for {trig}")
+        if kind != final:
+            return
+        trig_reports[q] = trig_reports.get(q, 0) + 1
+        w.probe("trigger_expression_names_file_globals")
+        if trig["via"] not in (None, "self"):
+            w.probe("trigger_function_decorated_by_other_file")
+            w.probe(f"trigger_function_decorated_by_other_file_{trig['deco']}")
+        if not trig_truth(trig, fire, trig["f"]):
+            others = [f for f in files if f != trig["f"] and trig_truth(dict(trig, expr="limit"), fire, f)]
+            viol("C11.foreign_globals", {"at": "trigger_expression", "what": "fired_although_false"},
+                 f"trigger function trg_{k} of {trig['f']} ({trig['kind']}, decorator {trig['deco']} via {trig['via']}) "
+                 f"ran for fire #{q} (n={fire['n']}, base={spec['tbase']}) although its expression is false with the "
+                 f"globals of {trig['f']} (limit={LIMIT[trig['f']]}); it would be true with the limit of {others}",
+                 m["t"])
 
     clors: dict = {}           # (run, d, caller file) -> 'clor' marks
     clo_plan = {(crid, cd, cfid): (cg, clo) for rn in spec["runs"] for (crid, cd, cfid, cg, clo) in expected_clors(rn)}
@@ -1216,6 +1652,51 @@ def judge(w: World, scn: dict, st: dict):
             clors.setdefault((run_id, kw.get("d"), fid), []).append(m)
             check_clor(m, fid, kw)
             continue
+        if kind == "rebind":
+            rb = rebind_by_id.get(kw.get("k"))
+            if rb is None or rb["f"] != fid or rb["g"] != kw.get("g"):
+                raise HarnessError(f"C11: rebind mark without a spec entry {kw}")
+            rebind_marks.setdefault(rb["id"], []).append(m)
+            w.probe("imported_name_bound_again")
+            w.probe(f"imported_name_bound_again_{rb['where']}")
+            if rb["obj"] == "cls":
+                w.probe("imported_class_bound_again")
+            check_rb_view(rb["g"], m["raw_kw"].get("after"),
+                          f"after {fid} bound the {rb['obj']} it got from {rb['g']} through {rb['form']} again "
+                          f"({rb['how']}, {rb['where']})", m["t"])
+            continue
+        if kind == "tailerr":
+            k, err = kw.get("k"), m["raw_kw"].get("err")
+            if kw.get("item") == "trg":
+                trig = trig_by_id.get(k)
+                if trig is None or trig["f"] != fid:
+                    raise HarnessError(f"C11: tailerr mark without a spec entry {kw}")
+                if trig["deco"] == "existing":
+                    viol("C11.global_modified_by_other_file",
+                         {"what": "function_returned_by_decorator", "now": "decorator_application_fails"},
+                         f"{fid}'s statement '@<trigger> @{trig['via']}:texist def trg_{k}' raises {err}: the decorator "
+                         f"of {trig['via'].partition('.')[0]} returns an existing function of its own file, and that "
+                         f"function is no longer usable after an earlier load of {fid} had been handed it", m["t"],
+                         once=("texfail", fid, k))
+                else:
+                    viol("C11.call_chain_deviates", {"expected": "trigger_definition", "got": "error"},
+                         f"{fid}'s definition of trigger function trg_{k} ({trig}) raises {err}", m["t"])
+            else:
+                rb = rebind_by_id.get(k)
+                if rb is None or rb["f"] != fid:
+                    raise HarnessError(f"C11: tailerr mark without a spec entry {kw}")
+                rebind_marks.setdefault(rb["id"], []).append(m)
+                if ("C11.global_modified_by_other_file", (rb["g"], rb["obj"])) in seen_keys:
+                    # already reported: the exporter's global is gone, so a later load of the importer cannot even
+                    # fetch it any more - a consequence
+                    w.probe("rebind_failed_after_exporter_global_was_modified")
+                    continue
+                viol("C11.call_chain_deviates", {"expected": "rebind", "got": "error"},
+                     f"{fid}: binding the {rb['obj']} imported from {rb['g']} (through {rb['form']}) again by "
+                     f"{rb['how']} ({rb['where']}) raises {err}", m["t"])
+            continue
+        if kind in ("trg", "twr", "tex"):
+            check_trig_mark(m, kind, fid, kw)
         # ---- marks made by code of file fid that read its own globals
         if kind not in OWN_KINDS:
             raise HarnessError(f"C11: unknown mark kind {kind}")
@@ -1288,7 +1769,7 @@ def judge(w: World, scn: dict, st: dict):
                 if kind not in SEQ_KINDS:
                     continue
                 item = (kind, m["args"][1], m["kw"].get("d"))
-                if kind == "back":
+                if kind in ("back", "cback"):
                     item += (m["kw"].get("how"),)
                 got.append((item, m))
             got_items = [g[0] for g in got]
@@ -1313,11 +1794,56 @@ def judge(w: World, scn: dict, st: dict):
                      f"{'raised' if (want[3:] or ('',))[0] == 'exc' else 'come back'} - that is the local of a frame it "
                      f"called (mark #{pos} should be {want}, is {have}); error log: {errs}", t)
                 continue
+            if want and have and want[0] == have[0] == "cback" and want[1] == have[1] and want[3:] == have[3:] and \
+                    isinstance(have[2], int) and have[2] == want[2] + 100:
+                # via_comp() made the call from inside a comprehension 'for d in [d + 100]': afterwards its own local
+                # d still reads the comprehension's loop variable
+                comp = next((s.get("comp") for s in rn["plan"] if s["d"] == want[2] + 1), None)
+                viol("C11.caller_context_not_restored",
+                     {"at": "cback", "what": "locals", "call_in_comprehension": comp,
+                      "callee_raised": (want[3:] or ("",))[0] == "exc"},
+                     f"run {rid} (entry {rn['how']} in {rn['entry']}, plan {[(s['f'], s['via']) for s in rn['plan']]}): "
+                     f"the frame of {want[1]} that called hop {want[2] + 1} from inside a {comp} comprehension "
+                     f"('for d in [d + 100]') reads its own local d as {have[2]} once the callee has "
+                     f"{'raised' if (want[3:] or ('',))[0] == 'exc' else 'come back'}: the comprehension's loop "
+                     f"variable, not the frame's d={want[2]} (mark #{pos} should be {want}, is {have}); "
+                     f"error log: {errs}", t)
+                continue
             viol("C11.call_chain_deviates",
                  {"expected": want[0] if want else None, "got": have[0] if have else None},
                  f"run {rid} (entry {rn['how']} in {rn['entry']}, plan "
                  f"{[(s['f'], s['via']) for s in rn['plan']]}): mark #{pos} should be {want}, is {have}; "
                  f"error log: {errs}", t)
+
+    # ---- every fire whose expression is true in the trigger function's own file must have run it (without reloads)
+    for fire in st.get("fires", []):
+        trig = trig_by_id[fire["k"]]
+        w.probe("trigger_fired_by_driver")
+        if any_reload or trig_reports.get(fire["q"]) or not trig_truth(trig, fire, trig["f"]):
+            continue
+        errs = [l["msg"].strip().split("\n")[-1][:160] for l in w.logs if l["level"] == "ERROR" and "boom" not in l["msg"]]
+        viol("C11.foreign_globals", {"at": "trigger_expression", "what": "not_fired_although_true"},
+             f"trigger function trg_{trig['id']} of {trig['f']} ({trig['kind']}, decorator {trig['deco']} via "
+             f"{trig['via']}, expression on {trig['expr']}) did not run for fire #{fire['q']} (n={fire['n']}, "
+             f"base={spec['tbase']}) although its expression is true with the globals of {trig['f']} "
+             f"(limit={LIMIT[trig['f']]}); error log: {errs[-3:]}", fire["t"])
+    # ---- every statement that binds an imported name again must have been executed (without reloads)
+    if not any_reload:
+        done = {r["k"]: r for r in st.get("rebinds", [])}
+        for rb in spec["rebinds"]:
+            if rb["id"] in rebind_marks:
+                continue
+            if rb["where"] == "local" and rb["f"] in ENTRY_POOL:
+                if rb["id"] not in done:
+                    continue   # no op asked for it
+            elif rb["f"] not in loads:
+                continue       # a module nobody had imported yet
+            errs = [l["msg"].strip().split("\n")[-1][:160] for l in w.logs
+                    if l["level"] == "ERROR" and "boom" not in l["msg"]]
+            viol("C11.call_chain_deviates", {"expected": "rebind", "got": None},
+                 f"{rb['f']} never got past the statement that binds the {rb['obj']} it imported from {rb['g']} "
+                 f"(through {rb['form']}) again by {rb['how']} ({rb['where']}); error log: {errs[-3:]}",
+                 w.marks[-1]["t"] if w.marks else 0.0)
 
     # ---- final quiescent probe: one live instance per module name, state shared
     final_views: dict = {}
@@ -1346,6 +1872,14 @@ def judge(w: World, scn: dict, st: dict):
                 viol("C11.shared_state_not_shared", {"at": "peek"},
                      f"{where} reads len(shared)={ent.get('sh')!r}; importers appended "
                      f"{shared_model.get((fid, tok), 0)} item(s) to instance {tok}", m["t"])
+            if "rb" in ent:
+                check_rb_view(fid, ent["rb"], f"{where}", m["t"])
+            if ent.get("tex", "ok") != "ok":
+                viol("C11.global_modified_by_other_file", {"what": "function_returned_by_decorator", "now": "error"},
+                     f"{where}: {fid}'s OWN call of its function t_existing() fails with {ent['tex']!r}; the function "
+                     f"had been returned by {fid}'s decorator texist() to "
+                     f"{[t['f'] for t in spec['trigs'] if t['deco'] == 'existing' and t['via'].partition('.')[0] == fid]}",
+                     m["t"], once=("tex", fid))
             if latest_tok.get(fid) != tok:
                 continue  # a superseded instance reached through somebody's stale binding: its views are consequences
             for via, seen_tok in sorted((ent.get("sees") or {}).items()):
@@ -1436,6 +1970,10 @@ def _count_plan_features(w: World, rn: dict, rid: int) -> None:
             w.probe("cross_file_call_failed_at_argument_binding")
         if step["raise"] and step["f"] != prev and not step["spawn"]:
             w.probe("callee_raised_through_context_switch")
+        if step.get("comp"):
+            w.probe("call_in_comprehension")
+            if _raises(plan, i):
+                w.probe("callee_raised_in_comprehension")
         if step["raise"] and step.get("rcls"):
             w.probe("callee_raised_in_class_body")
             if step["f"] == prev and not step["spawn"]:
